@@ -325,4 +325,43 @@ func c16cd(c *Ctx, v *variants.Variant) {
 		})
 	}
 	r.Check(okD, "C16-d", "T.newParser:zero-means-unlimited", vn, "builder/static_code.go", "0 => math.MaxUint64", "the zero budget is not mapped to unlimited")
+	// the budget is the number the caller gave: besides that defaulting, only the MaxExpressions option stores to it,
+	// and it stores its argument (no arithmetic on the limit: n + something can wrap around)
+	var bad []string
+	nW := 0
+	for _, fd := range v.Funcs() {
+		if fd.Body == nil {
+			continue
+		}
+		ast.Inspect(fd.Body, func(n ast.Node) bool {
+			switch x := n.(type) {
+			case *ast.AssignStmt:
+				for i, l := range x.Lhs {
+					if nospace(l) != "p.maxExprCnt" {
+						continue
+					}
+					nW++
+					rhs := ""
+					if i < len(x.Rhs) {
+						rhs = nospace(x.Rhs[i])
+					}
+					gs := strings.Join(guardsOf(fd.Body, x.Pos()), ";")
+					switch {
+					case x.Tok == token.ASSIGN && fd.Name.Name == "newParser" && rhs == "math.MaxUint64" && gs == "p.maxExprCnt==0":
+					case x.Tok == token.ASSIGN && fd.Name.Name == "MaxExpressions" && !strings.ContainsAny(rhs, "+-*/%") && gs == "":
+					default:
+						bad = append(bad, v.Where(x.Pos())+": "+fd.Name.Name+" stores p.maxExprCnt "+x.Tok.String()+" "+rhs+" under ["+gs+"]")
+					}
+				}
+			case *ast.IncDecStmt:
+				if nospace(x.X) == "p.maxExprCnt" {
+					nW++
+					bad = append(bad, v.Where(x.Pos())+": "+fd.Name.Name+" steps p.maxExprCnt")
+				}
+			}
+			return true
+		})
+	}
+	sort.Strings(bad)
+	r.Check(len(bad) == 0 && nW >= 2, "C16-d", "T.maxExprCnt:writers", vn, "builder/static_code.go", "written only by the MaxExpressions option (its argument) and the zero-means-unlimited default", strings.Join(bad, "; ")+": the effective budget is no longer the caller's n")
 }
